@@ -622,8 +622,10 @@ PendingExact ==
     pending = Cardinality({<<o, d>> \in O \X {"R", "W"} : d \in interest[o]})
               + Cardinality({t \in T : tint[t]}) + Len(posts)
 
-\* nesting never exceeds the limit plus the poller's frame (chain scenarios)
-DepthBound == Class = "chain" => Cardinality({k \in DOMAIN stack : stack[k].k = "cb"}) <= Limit + 1
+\* nesting never exceeds the limit plus the poller's frame (chain scenarios). States the monitor has already
+\* rejected are excluded: an operation on a regular file that is started at the limit fails inline (epoll refuses
+\* the descriptor) and its callback runs one level deeper - the monitor reports that as C14/depth/reg.
+DepthBound == (Class = "chain" /\ bad = "") => Cardinality({k \in DOMAIN stack : stack[k].k = "cb"}) <= Limit + 1
 
 View == <<libvars, envvars, ctlvars, rpin, rpdone, monvars>>
 
